@@ -38,6 +38,7 @@ ALL_OPS = {"rwb-write", "rwb-force", "edit", "insert", "delete", "rename"}
 BASE = {"NLs": {"LF", "CRLF", "CR"}, "Finals": {True, False}, "Boms": {True, False},
         "InsertKinds": {"com"}, "UndoModes": {"session"}, "RestoreNL": True, "KeepBom": True}
 
+QUICK_SAMPLE = 100000   # behaviours replayed in the quick tier (seeded sample of all exported ones)
 INVARIANTS = ["TypeOK", "Glue", "ReadOK", "Identity", "LocalEdit", "ReadBack", "UndoRestores", "EncStable"]
 
 
@@ -50,7 +51,7 @@ def slices(tier):
             ("cookies", dict(BASE, Classes={"eac", "eur", "A1"}, Cookies=tlc.Sub("MCCookiesQuick"),
                              Layouts=ALL_LAYOUTS, BodyKinds={"def", "com"}, MaxBody=1, MaxPayload=1,
                              MaxChars=1, NewNames={"long", "lat"}, Ops={"rwb-force", "edit", "rename"})),
-            ("payload", dict(BASE, Classes={"eac", "eur", "nel", "ls", "ast", "so"},
+            ("payload", dict(BASE, Classes={"eac", "eur", "ls", "ast", "so"},
                              Cookies=tlc.Sub("MCCookiesPlain"), Layouts={"none", "p1"},
                              BodyKinds={"def", "use", "com"}, MaxBody=2, MaxPayload=1, MaxChars=1,
                              NewNames={"long", "lat"}, Ops=ALL_OPS, UndoModes={"session", "reopen"})),
@@ -393,10 +394,10 @@ class Acc:
     def replay(self, behs, tier):
         behs.sort(key=lambda b: (b["slice"], json.dumps(describe(b), sort_keys=True)))
         self.total += len(behs)
-        if tier == "quick" and len(behs) > 130000:
+        if tier == "quick" and len(behs) > QUICK_SAMPLE:
             rnd = common.rng("c16")
             rnd.shuffle(behs)
-            del behs[130000:]
+            del behs[QUICK_SAMPLE:]
         for b in behs:
             f0 = b["file0"]
             self.ops_seen[b["act"]["op"]] = self.ops_seen.get(b["act"]["op"], 0) + 1
